@@ -9,7 +9,7 @@ import json, os, subprocess, sys, shutil, re
 
 VERIF = "/verif"
 RELATED = {
-    "C01": ["C01", "C03", "C05"], "C02": ["C02", "C03", "C01"], "C03": ["C03", "C01", "C11"],
+    "C01": ["C01", "C03", "C05"], "C02": ["C02", "C03", "C01", "C10"], "C03": ["C03", "C01", "C11"],
     "C04": ["C04", "C13", "C08"], "C05": ["C05", "C01"], "C06": ["C06", "C12", "C07", "C08"], "C07": ["C07", "C12", "C06"],
     "C08": ["C08", "C09", "C15"], "C09": ["C09"], "C10": ["C10", "C01", "C03", "C06"], "C11": ["C11"],
     "C12": ["C12", "C13"], "C13": ["C13", "C12"], "C14": ["C14", "C02", "C03"], "C15": ["C15"],
